@@ -128,8 +128,8 @@ def examine(ctx, recipe, items) -> None:
                     ctx.oracle_fail('select-storage-type-changed', {'recipe': recipe, 'kind': kind, 'indexes': comps, 'var': nm},
                                     f'{nm} is stored as {da.dtype}, the selection holds {res[nm].dtype}')
                 for k, cc in enumerate(comps):
-                    want = np.asarray(da.isel(dict(zip(gdims, cc))).values, dtype='f8')
-                    got = np.asarray(res[nm].isel({idim: k}).transpose(*[d for d in da.dims if d not in gdims]).values, dtype='f8')
+                    want = util.as_num(da.isel(dict(zip(gdims, cc))).values)
+                    got = util.as_num(res[nm].isel({idim: k}).transpose(*[d for d in da.dims if d not in gdims]).values)
                     if want.shape != got.shape or not np.array_equal(want, got, equal_nan=True):
                         ctx.oracle_fail('select-wrong-values', {'recipe': recipe, 'kind': kind, 'indexes': comps, 'var': nm, 'entry': k},
                                         f'entry {k} of {nm} is {got.tolist()}, stored value at {cc} is {want.tolist()}')
@@ -157,7 +157,7 @@ def examine(ctx, recipe, items) -> None:
                     ctx.oracle_fail('select-storage-type-changed', {'recipe': recipe, 'kind': kind, 'index': cc, 'var': nm},
                                     f'{nm} is stored as {want.dtype}, select_index gives {one[nm].dtype}')
                 if tuple(one[nm].dims) != tuple(want.dims) or not np.array_equal(
-                        np.asarray(one[nm].values, dtype='f8'), np.asarray(want.values, dtype='f8'), equal_nan=True):
+                        util.as_num(one[nm].values), util.as_num(want.values), equal_nan=True):
                     ctx.oracle_fail('select-index-other-dimensions-changed', {'recipe': recipe, 'kind': kind, 'index': cc, 'var': nm},
                                     f'select_index({cc})[{nm}] has dims {one[nm].dims}, the stored slice has {want.dims}')
         ctx.nontrivial((str(recipe), kind, 'single', n))
@@ -249,7 +249,7 @@ def examine(ctx, recipe, items) -> None:
                     if info.kind == 'face' and nm in sp:
                         want = ds[nm].isel(dict(zip(gd, cc)))
                         if tuple(sp[nm].dims) != tuple(want.dims) or not np.array_equal(
-                                np.asarray(sp[nm].values, dtype='f8'), np.asarray(want.values, dtype='f8'), equal_nan=True):
+                                util.as_num(sp[nm].values), util.as_num(want.values), equal_nan=True):
                             ctx.oracle_fail('select-point-wrong-values', {**desc, 'point': [str(x), str(y)], 'var': nm},
                                             f'select_point gives {np.asarray(sp[nm].values).tolist()} (dims {sp[nm].dims}), cell {cc} stores {np.asarray(want.values).tolist()} (dims {want.dims})')
         for policy in ('error', 'drop'):
@@ -299,6 +299,10 @@ def examine(ctx, recipe, items) -> None:
             except Exception as e:
                 res, out = None, 'ERR'
             items.append((line, out, {**desc, 'op': line, 'policy': 'df-' + policy}))
+            if res is None and policy == 'fill' and n_hit > 0 and any(info.kind == 'face' for info in built.vars.values()):
+                # 'fill' keeps every row whatever the storage types of the variables; it has nothing to refuse
+                ctx.oracle_fail('policy-fill-raised', {**desc, 'policy': policy},
+                                f'extract_dataframe(missing_points="fill") raised with {n_hit} of {len(pts)} points inside the model')
             if hasattr(res, 'data_vars'):
                 want = list(range(len(pts))) if policy == 'fill' else [i for i, h in enumerate(hits) if h != '-']
                 if names_col != [f'p{i}' for i in want]:
@@ -307,7 +311,7 @@ def examine(ctx, recipe, items) -> None:
                     for nm in res2.data_vars:
                         for i, h in enumerate(hits):
                             if h == '-':
-                                vals = np.asarray(res2[nm].isel(point=i).values, dtype='f8')
+                                vals = util.as_num(res2[nm].isel(point=i).values)
                                 if not np.all(np.isnan(vals)):
                                     ctx.oracle_fail('policy-fill-miss-has-data', {**desc, 'policy': policy, 'var': str(nm)}, f'row {i} is a miss but holds {vals.tolist()}')
                                     break
@@ -317,9 +321,11 @@ def make_recipe(ctx, k):
     rng = ctx.rng
     conv = G.CONVS[k % len(G.CONVS)]
     kw = {'max_w': 2, 'max_h': 2, 'coords_as': 'vars'} if conv == 'ugrid' else {'max_n': 4}
-    recipe = G.random_recipe(rng, conv, ctx.tier, **kw)
+    recipe = G.random_recipe(rng, conv, ctx.tier, vary=True, **kw)
+    if rng.random() < 0.25:
+        recipe['vary'] = {'chunk': rng.choice([1, 2])}     # lazily evaluated (dask-backed) data
     return G.attach_vars(rng, recipe, n_vars=3, max_extra=2, with_nan=True,
-                         dtypes=('f8', 'f8', 'f4', 'i4', 'i8', 'u4', 'i4fill', 'i4missing'))
+                         dtypes=('f8', 'f8', 'f4', 'i4', 'i8', 'u4', 'i4fill', 'i4missing', 'M8', 'm8'))
 
 
 def run(ctx) -> None:
